@@ -43,8 +43,7 @@ Definition export_attribute (k : okind) (name : string) (d : attr_def) : dattr *
       (mkdattr k AInt name mn mx 0 0 fl_zero fl_zero [], mkdattrdef VInt name EmptyString dv 0 fl_zero)
   | DefFloat dv mn mx =>
       (mkdattr k AFloat name 0 0 0 0 mn mx [],
-       (* exporter.go: Type = AttributeDefaultString with ValueFloat set *)
-       mkdattrdef VString name EmptyString 0 0 dv)
+       mkdattrdef VFloat name EmptyString 0 0 dv)
   | DefEnum dv vals =>
       (mkdattr k AEnum name 0 0 0 0 fl_zero fl_zero vals, mkdattrdef VString name dv 0 0 fl_zero)
   end.
@@ -134,6 +133,7 @@ Section ExportSignals.
   Variable order : byte_order.
   Variable msgid : Z.
   Variable receivers : list string.       (* dbcSig.Receivers, already sanitised *)
+  Variable many_muxes : bool.             (* currMsgMuxCount > 1 *)
 
   Definition children (p : signal) : list signal :=
     sort_by (fun a b => s_rel a <? s_rel b)
@@ -183,7 +183,7 @@ Section ExportSignals.
                        names ++ [cn], (cn, [id]) :: gmap, nested, extended)
                   | Some g => (acc, names, (cn, g ++ [id]) :: gmap, nested, true)
                   end) kids st)
-              (zrange 0 (Z.to_nat (s_gcount s))) (acc, [], [], muxed, false) in
+              (zrange 0 (Z.to_nat (s_gcount s))) (acc, [], [], muxed || many_muxes, false) in
             if negb extended && negb nested then acc else
             fold_left (fun acc cn =>
               let g := match lookup String.eqb cn gmap with Some g => g | None => [] end in
@@ -211,10 +211,10 @@ Definition export_message (es : list enum_def) (m : message) (acc : eacc) : eacc
               end in
   let tops := sort_by (fun a b => s_rel a <? s_rel b)
                       (filter (fun s => match s_parent s with None => true | _ => false end) (m_signals m)) in
-  let acc := fold_left (fun a s => export_signal es (m_signals m) (m_order m) msgid recs (length (m_signals m)) s a)
+  let many := Nat.ltb 1 (length (filter (fun s => match s_kind s with KMux => true | _ => false end) tops)) in
+  let acc := fold_left (fun a s => export_signal es (m_signals m) (m_order m) msgid recs many (length (m_signals m)) s a)
                        tops (set_sigs [] acc) in
-  (* Transmitter is the raw node name (not sanitised) *)
-  add_message (mkdmessage msgid (clear_spaces (m_name m)) (u32 (m_size m)) (m_sender m) (ea_sigs acc)) acc.
+  add_message (mkdmessage msgid (clear_spaces (m_name m)) (u32 (m_size m)) (clear_spaces (m_sender m)) (ea_sigs acc)) acc.
 
 (* exportNodeInterfaces + exportBus *)
 Definition export (b : bus) : doc :=
@@ -234,7 +234,7 @@ Definition export (b : bus) : doc :=
               (b_nodes b) acc2 in
   mkdoc (b_name b) (map (fun n => clear_spaces (n_name n)) (b_nodes b))
         (map (fun i => let e := nth_enum (b_enums b) i in
-                       mkdvaltable (en_name e) (map (fun p => (u32 (fst p), snd p)) (sorted_enum_values e)))
+                       mkdvaltable (clear_spaces (en_name e)) (map (fun p => (u32 (fst p), snd p)) (sorted_enum_values e)))
              (ea_enums acc3))
         (ea_messages acc3) (ea_comments acc3) (ea_attrs acc3) (ea_attrdefs acc3) (ea_attrvals acc3)
         (ea_valencs acc3) (ea_extmuxes acc3).
